@@ -108,6 +108,28 @@ def apply_write(blk, w):
     return bytes(blk[:pos]) + data + bytes(blk[pos + len(data):])
 
 
+def declared_bits(it):
+    """the (byte, bit) cells an item owns by its DECLARATION: whole bytes without a bit position, else the smallest field that
+    holds the declared number of items (1 bit for a Bool) - independent of how the accessor derives its mask"""
+    import math
+    ln = it["length"]
+    if it["bitpos"] is None:
+        return {(it["pos"] + j, b) for j in range(ln) for b in range(8)}
+    width = 1
+    if it["type"] == "Enum" and it["maxitems"]:
+        width = max(1, math.ceil(math.log2(int(it["maxitems"]))))
+    return {(it["pos"] + ln - 1 - k // 8, k % 8) for k in range(it["bitpos"], it["bitpos"] + width)}
+
+
+def real_value(it, blk):
+    rec = Rec()
+    try:
+        st, a = build("sync", rec, (it["type"], it["pos"], it["bitpos"], it["items"], it["size"], it["maxitems"], it["rw"]), blk)
+        return a.value
+    except Exception as e:  # noqa
+        return ("raises", type(e).__name__)
+
+
 def one_case(ctx, decl, blk, v, exprs, meta, label_ref=None, tag="shape"):
     """Runs the real code (both structures, both setters) and emits the Coq case."""
     typ, pos, bitpos, items, size, maxitems, rw = decl
@@ -257,6 +279,12 @@ def run(ctx):
     pick = [m for m in mods if m["items"]]
     pick = pick if ctx.thorough else rng.sample(pick, nmods)
     per = 6 if not ctx.thorough else 10
+    by_byte = {}
+    for m in pick:
+        d = by_byte.setdefault(m["stem"], {})
+        for it in m["items"]:
+            for j in range(it["length"]):
+                d.setdefault(it["pos"] + j, []).append(it)
     for m in pick:
         blk = bytes(rng.randrange(256) for _ in range(1024))
         its = [it for it in m["items"] if it["rw"] is not None and (m["stem"], it["tag"]) not in known_bad and it["pos"] + it["length"] <= 1024]
@@ -287,6 +315,18 @@ def run(ctx):
                     if (old ^ new) & ~(fieldmask << shift):
                         ctx.fail("isolation:%s:%s" % (m["stem"], it["tag"]), "a bit outside the item's field changed",
                                  {"module": m["stem"], "item": it["tag"], "value": v, "write": w})
+                    # neighbours: an item whose declared cells are disjoint from this one's must read the same before and after
+                    mine = declared_bits(it)
+                    for other in by_byte.get(m["stem"], {}).get(it["pos"], []) + (by_byte.get(m["stem"], {}).get(it["pos"] + 1, []) if it["length"] == 2 else []):
+                        if other is it or (m["stem"], other["tag"]) in known_bad or other["pos"] + other["length"] > 1024 or declared_bits(other) & mine:
+                            continue
+                        ctx.count("neighbour_checks")
+                        b0, b1 = real_value(other, blk), real_value(other, nb)
+                        if b0 != b1:
+                            ctx.fail("neighbour:%s:%s" % (m["stem"], it["tag"]), "writing %s = %r changed the value of %s (%r -> %r), an item it does not overlap" % (
+                                it["tag"], v, other["tag"], b0, b1), {"module": m["stem"], "item": it["tag"], "value": v, "write": w, "neighbour": other["tag"],
+                                                                       "bytes_before": list(blk[it["pos"]:it["pos"] + 2]), "bytes_after": list(nb[it["pos"]:it["pos"] + 2])})
+                            break
     for s in meta[:2] + meta[len(meta) // 2:len(meta) // 2 + 2]:
         ctx.sample({k: (v if k != "block" else v[:12]) for k, v in s.items()})
     res = ctx.coq_cases("corr", HEADER, exprs, shard=300)
@@ -300,6 +340,45 @@ def run(ctx):
                 ctx.fail("readback:shape:%s" % (d[:3],), "write-then-read does not return the written value on the real accessor",
                          b)
                 break
+        # ... and on the shipped items of the disagreeing shapes: adversarial blocks (all ones / all zeros around the field), every label
+        shapes_bad = {(b["decl"][0], b["decl"][2] is not None, b["decl"][4], b["decl"][5]) for b in bad}
+        tried = 0
+        for m in mods:
+            if ctx.failures and any(f["key"].startswith(("neighbour:", "readback:", "isolation:")) for f in ctx.failures):
+                break
+            d = {}
+            for it in m["items"]:
+                for j in range(it["length"]):
+                    d.setdefault(it["pos"] + j, []).append(it)
+            for it in m["items"]:
+                if (it["type"], it["bitpos"] is not None, it["size"], it["maxitems"]) not in shapes_bad or it["rw"] is None or (m["stem"], it["tag"]) in known_bad or it["pos"] + it["length"] > 1024:
+                    continue
+                if tried > 400:
+                    break
+                tried += 1
+                for fill in (0xFF, 0x00):
+                    blk = bytes([fill]) * 1024
+                    for v in [x for x in domain(rng, it["type"], it["items"], it["length"], False) if x != "__absent__"][:4]:
+                        rec = Rec()
+                        st, a = build("sync", rec, (it["type"], it["pos"], it["bitpos"], it["items"], it["size"], it["maxitems"], it["rw"]), blk)
+                        w = drive(st, a, "sync", py_value_arg(it["type"], v), rec)
+                        nb = apply_write(blk, w) if w is not None else None
+                        if nb is None:
+                            continue
+                        mine = declared_bits(it)
+                        for other in d.get(it["pos"], []) + (d.get(it["pos"] + 1, []) if it["length"] == 2 else []):
+                            if other is it or (m["stem"], other["tag"]) in known_bad or other["pos"] + other["length"] > 1024 or declared_bits(other) & mine:
+                                continue
+                            b0, b1 = real_value(other, blk), real_value(other, nb)
+                            if b0 != b1:
+                                ctx.fail("neighbour:%s:%s" % (m["stem"], it["tag"]), "writing %s = %r changed the value of %s (%r -> %r), an item it does not overlap" % (
+                                    it["tag"], v, other["tag"], b0, b1), {"module": m["stem"], "item": it["tag"], "value": v, "write": w, "neighbour": other["tag"], "block_fill": fill})
+                                break
+                        got = real_value(it, nb)
+                        if isinstance(v, str) and it["type"] == "Enum" and got != v:
+                            ctx.fail("readback:%s:%s" % (m["stem"], it["tag"]), "write-then-read does not return the written value (%r written, %r read back, block filled with 0x%02x)" % (v, got, fill),
+                                     {"module": m["stem"], "item": it["tag"], "value": v, "read_back": got, "write": w, "block_fill": fill})
+        ctx.count("targeted_search_items", tried)
     ctx.assume += ["struct.pack/unpack big-endian semantics as modelled by be_encode/be_decode (exercised by every case)",
                    "Python int() is modelled for canonical decimal strings only",
                    "temperature accessors are covered at word level here and through floating point in C14"]
